@@ -11,17 +11,20 @@ from ..core import AnalysisError, own_nodes, norm, parents, stmt_of, dominates
 from .. import roles
 
 LEVEL_TEXT = ('static analysis: (D1) export_bed interpreted on one segment per chromosome class x copy number 0..ploidy+2 for show in {all, '
-              'ploidy, variant} x ploidy {2, 3, 4} x reference sex x sample sex x PAR genome: the rows kept are all / cn != ploidy / cn != the '
-              "copies expected for the class and the sample's sex, with unchanged 0-based coordinates, the label and the integer cn (or round(r "
-              '2^log2) without a cn column); (D2) segments2vcf -- a generator building f-strings -- interpreted over the same classes, with start'
-              ' 0 and a symbolic start: a record is emitted <=> cn != expected; ALT / SVTYPE DEL <=> below, DUP <=> above; POS = start with 0 -> '
-              '1; END = end; SVLEN = end - start for DUP and -(end - start) for DEL (of the real start, not POS); FORMAT GT:GQ:CN:CNQ with CN = '
-              'cn for gains, GT:GQ for losses; a row with a non-numeric probe count gives no record and shifts nothing; (D3) SEG: format_seg '
-              'renames start+1 -> loc.start, end -> loc.end, probes -> num.mark, log2 -> seg.mean under ID = the sample id, and export_seg -> '
-              "write_seg, interpreted for 1-3 files with an empty table in any position, lists every file's rows under that file's own sample id "
-              'in file order, probe counts kept for every table that has them; (D4) merge_samples interpreted on literal tables: one log2 column '
-              'per sample id over identical bins; a different number of bins, differing chromosome:start-end:gene labels (also permuted) or a '
-              "duplicate sample id raise; fmt_jtv / fmt_cdt rows are the label plus every sample's value; (D6) the stated sample sex reaches the "
+              'ploidy, variant} x ploidy {1, 2, 3} (1..6 thorough) x reference sex x sample sex x PAR genome: the rows kept are all / cn != '
+              "ploidy / cn != the copies expected for the class and the sample's sex, with unchanged 0-based coordinates, the label and the "
+              'integer cn (or round(r 2^log2) without a cn column); (D2) segments2vcf -- a generator building f-strings -- interpreted over the '
+              'same classes, with start 0 and a symbolic start: a record is emitted <=> cn != expected; ALT / SVTYPE DEL <=> below, DUP <=> '
+              'above; POS = start with 0 -> 1; END = end; SVLEN = end - start for DUP and -(end - start) for DEL (of the real start, not POS); '
+              'FORMAT GT:GQ:CN:CNQ with CN = cn for gains, GT:GQ for losses; a row with a non-numeric probe count gives no record and shifts '
+              'nothing; (D3) SEG: format_seg renames start+1 -> loc.start, end -> loc.end, probes -> num.mark, log2 -> seg.mean under ID = the '
+              "sample id, and export_seg -> write_seg, interpreted for 1-3 files with an empty table in any position, lists every file's rows "
+              "under that file's own sample id in file order, probe counts kept for every table that has them; (D4) merge_samples interpreted on "
+              'literal tables: one log2 column per sample id over identical bins; a different number of bins, differing chromosome:start-end:gene'
+              ' labels (also permuted) or a duplicate sample id (also among the later files) raise; export_vcf, interpreted with segments2vcf '
+              "stubbed, writes its records under the ten VCF columns with the sample's id last and passes ploidy / sexes / PAR genome on in their"
+              " roles; nexus-basic rows are the bin's own fields plus its chr:start-end label; export_seg also lists files that share a sample id"
+              " one after the other; fmt_jtv / fmt_cdt rows are the label plus every sample's value; (D6) the stated sample sex reaches the "
               'export through verify_sample_sex (C15 rule); (D5) the sex / PAR / ploidy flags reach same-role parameters from the export commands'
               ' down to the calling functions. (CLI) the `export bed / vcf / seg` command line(s), through a model of argparse built from the '
               'declarations in commands.py and the real _cmd_ body interpreted with readers, library step and writers stubbed: ploidy, reference '
@@ -383,6 +386,8 @@ def run(chk):
     chk.clause("PAR", "which bins count as PAR-X / PAR-Y: the filters on literal bins around every PAR boundary (C01-D2b rule)")
     from . import C01
     C01.par_key_label(chk, prog)
+    from . import C15
+    C15.sex_labels(chk, prog)       # ... and under which names X / Y are looked up (C15 rule)
     d1(chk, prog, ploidies)
     d2(chk, prog, ploidies)
     d3(chk, prog)
